@@ -117,7 +117,7 @@ func runBFS(t *testing.T, name string, b bounds) {
 	sec.Bounds["calls_per_state"] = len(calls)
 	sec.Bounds["configurations"] = "cluster default factors {-1/-1, 1/2, 2/2} x follower {off,on}"
 	sec.Bounds["roots"] = "empty pinset; sharded fixture installed (meta + cluster-DAG + 2 shards)"
-	sec.Bounds["option_alphabet"] = "empty + one deviation: name n1/n2; mode direct; factors 1/1 2/3 -1/-1 0/2 1/0 2/1 -1/2 -3/-3 4/4; expiry future1/future2/past; metadata {} {k:v} {k:v'} {k:v,k2:v2} {k2:v2} {k:\"\"} {\"\":x}; origins [o1] [o1,o2] [o2]; user allocations [P2] [P2,P1]; update source = other plain CID / never-pinned / meta"
+	sec.Bounds["option_alphabet"] = "empty + one deviation: name n1/n2; mode direct; factors 1/1 2/3 -1/-1 0/2 1/0 2/1 -1/2 -3/-3 4/4; expiry future1/future2/past/unix-epoch/before-unix-epoch; metadata {} {k:v} {k:v'} {k:v,k2:v2} {k2:v2} {k:\"\"} {\"\":x}; origins [o1] [o1,o2] [o2]; user allocations [P2] [P2,P1]; update source = other plain CID / never-pinned / meta"
 	sec.Bounds["failing_ipfs_block_get"] = "the same states and calls once more with the daemon unable to deliver blocks (the cluster-DAG of sharded content cannot be read)"
 	sec.Bounds["failing_consensus"] = "the same states and calls twice more: with every LogPin/LogUnpin of the consensus component failing, and with only the first one of each request failing"
 	sec.Bounds["follower_mode"] = fmt.Sprintf("every call from every state of depth <= %d (states reached under the same factors with follower mode off)", b.followerTo)
